@@ -884,6 +884,21 @@ func genC15Invite(c *Ctx) {
 			}
 		}
 	}
+	// the whole product of the stripped-state / known-room / membership answers
+	for _, v := range []string{"10", "1", "6"} {
+		for given := 0; given <= 2; given++ {
+			for _, gen := range []string{"err", "nil", "empty", "some"} {
+				for _, known := range []string{"yes", "no", "err"} {
+					for _, mq := range []string{"leave", "join", "err", ""} {
+						s := good()
+						s.Ver, s.Given, s.Generated, s.Known, s.MemberQ = v, given, gen, known, mq
+						c.c15Run("C15.invite", s, fmt.Sprintf("invite v%s given=%d generated=%s known=%s member_q=%s", v, given, gen, known, mq))
+						c.Count("invite/state-product")
+					}
+				}
+			}
+		}
+	}
 	n := c.Scale(300, 4000)
 	for k := 0; k < n; k++ {
 		s := good()
